@@ -206,19 +206,29 @@ def shared_store_lines():
     import dis
     out = {}
 
+    MUTATORS = {"append", "extend", "insert", "add", "update", "setdefault", "pop", "popitem", "clear",
+                "remove", "discard", "sort", "reverse", "appendleft"}
+
     def walk(code):
         prev = None
+        globals_on_line = {}
         for ins in dis.get_instructions(code):
             hot = False
+            ln = ins.positions.lineno if ins.positions else None
+            if ins.opname == "LOAD_GLOBAL" and ln:
+                globals_on_line[ln] = True
             if ins.opname in ("STORE_GLOBAL", "DELETE_GLOBAL"):
                 hot = True
             elif ins.opname in ("STORE_ATTR", "DELETE_ATTR") and prev is not None and \
                     prev.opname in ("LOAD_ATTR", "LOAD_GLOBAL", "LOAD_NAME", "LOAD_DEREF"):
                 hot = True
-            if hot:
-                ln = ins.positions.lineno if ins.positions else None
-                if ln:
-                    out.setdefault(code.co_filename, set()).add(ln)
+            elif ins.opname == "LOAD_ATTR" and prev is not None and prev.opname == "LOAD_GLOBAL" and \
+                    str(ins.argval) in MUTATORS:
+                hot = True      # module_global.append(...) and friends
+            elif ins.opname in ("STORE_SUBSCR", "DELETE_SUBSCR") and ln and globals_on_line.get(ln):
+                hot = True      # module_global[key] = value
+            if hot and ln:
+                out.setdefault(code.co_filename, set()).add(ln)
             prev = ins
         for c in code.co_consts:
             if isinstance(c, types.CodeType):
